@@ -255,7 +255,10 @@ def replay(rp, info):
         for k in ("idx", "tmin", "tmax"):
             if k in d:
                 d[k] = {int(a): b for a, b in d[k].items()}
-        check_desc(res, model, d, "replay", channel_b=True)
+        if case.get("kind") == "c06-sequence":
+            check_sequence(res, d, ("replay", 0))
+        else:
+            check_desc(res, model, d, "replay", channel_b=True)
     for v in res.violations:
         print(v["kind"], v["what"][:600])
     print("replay:", "FAILS" if res.violations else "passes")
